@@ -53,6 +53,7 @@ def build(eng, tier):
     build_dedup(eng, tier)
     build_unused_removal(eng)
     build_unused_initializers(eng)
+    build_output_fix(eng)
 
 
 def build_identity(eng):
@@ -299,4 +300,120 @@ def build_unused_initializers(eng):
                   "forall(lambda v=Value: nonnull(v._uses))"],
         local_types={"graph_outputs": SETV, "graph_inputs": SETV},
         ghost=[("store:graph_outputs", "after", "g_gout = graph_outputs"), ("store:graph_inputs", "after", "g_gin = graph_inputs")],
+        ensures=[], raises_default=[], modifies=None, assert_mode="raise"))
+
+
+def build_output_fix(eng):
+    """OutputFixPass kernels (_alias_multi_used_outputs, _alias_direct_outputs): a graph output is only ever replaced, at its own
+    position, by the single output of a new Identity node whose single input is the value that was there (ghost precondition
+    on the outputs container's __setitem__ at these sites) - so every output position computes what it computed, and the
+    number and order of outputs is kept (postcondition of __setitem__: same length, other positions untouched).
+    Loop invariant of the scan over the outputs: the positions not yet visited still hold the values that were enumerated."""
+    from pyvc.core import Exc
+    from pyvc.types import NULL, VFunc, VNone, VOpaque, VStr, fresh_name
+    import z3
+    OF = "onnx_ir.passes.common.output_fix"
+    GCm = "onnx_ir._graph_containers"
+    schema.core_ir(eng)
+    SETV = eng.SET(TRef("Value"))
+    V = TRef("Value")
+    LVs = eng.LIST(TRef("Value")).cls + ".$v"
+    KEEP = "unchanged('Node._inputs', 'Node._outputs', 'Node._op_type', 'Value._producer', 'Graph._outputs', '_GraphIO.data')"
+    KEEPL = "unchanged(%r)" % LVs
+    alias = ("0 <= i and i < len(box(self.data)) and nonnull(item) and nonnull(item._producer) and item._producer._op_type == 'Identity' and "
+             "len(item._producer._inputs) == 1 and item._producer._inputs[0] is box(self.data)[i] and "
+             "len(item._producer._outputs) == 1 and item._producer._outputs[0] is item and fresh(item._producer)")
+    set_c = FnDecl(f"{GCm}._GraphIO.__setitem__", "contract", GCm, "_GraphIO.__setitem__",
+        # GHOST PRECONDITION: `item` is the output of a NEW Identity node fed by the value currently at position i
+        requires=["nonnull(self.data)", alias],
+        ensures=["len(box(self.data)) == old(len(box(self.data)))", "box(self.data)[i] is item",
+                 "forall(lambda j=int: implies(0 <= j and j < len(box(self.data)) and j != i, box(self.data)[j] is old(box(self.data)[j])))",
+                 KEEP, "forall(lambda d=GraphOutputs: implies(d is not self, box(d.data) == old(box(d.data))))"],
+        raises={"AnyException": []}, modifies=None)
+    append_c = FnDecl(f"{CORE}.Graph.append", "contract", CORE, "Graph.append", requires=["nonnull(node)"],
+        ensures=[KEEP, KEEPL], raises={"AnyException": []}, modifies=None)
+    LVc = eng.LIST(V)
+
+    def ir_node(e, p, args, kwargs, node):
+        """ir.node(op_type, inputs=[v]): a new node with these inputs and one new output it produces"""
+        n = e.new_object(p, "Node")
+        o = e.new_object(p, "Value")
+        ins = e.to_seq(kwargs["inputs"], p)
+        e.write_field(p, n, "_inputs", ins)
+        from pyvc.types import VSeq
+        e.write_field(p, n, "_outputs", VSeq.of([o], V))
+        e.write_field(p, n, "_op_type", args[0])
+        e.write_field(p, o, "_producer", n)
+        return [(p, n), (p.copy(), Exc("AnyException", f"L{node.lineno}:ir.node"))]
+
+    def fresh_graphs(e, p, args, kwargs, node):
+        v = e.symbolic_param(p, fresh_name("subgraphs"), TSeq(TRef("Graph")))
+        i = z3.Int(fresh_name("gi"))
+        p.assume(v.len >= 0)
+        ea = e._entry_alloc(p)
+        p.assume(z3.ForAll([i], z3.Implies(z3.And(0 <= i, i < v.len), z3.And(v.at(i).z != NULL, z3.Select(ea, v.at(i).z)))))
+        return [(p, v)]
+
+    def setup(e, p, env):
+        e.lenient = True
+        e.functions[f"{GCm}._GraphIO.__setitem__"] = set_c
+        e.functions[f"{CORE}.Graph.append"] = append_c
+        e.functions[f"{CORE}.Graph.subgraphs"] = FnDecl("Graph.subgraphs", "builtin", impl=fresh_graphs)
+        for prop_ in ("name", "shape", "type", "doc_string"):
+            key = f"{CORE}.Value.{prop_}#setter"
+            e.functions[key] = FnDecl(key, "contract", CORE, f"Value.{prop_}", kind="setter", requires=[], ensures=[KEEP, KEEPL],
+                                      raises={"AnyException": []}, modifies=None)
+        e.lib_models["c05.ir_node"] = ir_node
+        orig = e.module_attr
+
+        def module_attr(m, name, p2):
+            if name == "node" and m.name in ("onnx_ir", "ext:onnx_ir"):
+                return VFunc("lib", "c05.ir_node", "ir.node")
+            return orig(m, name, p2)
+        e.module_attr = module_attr
+        orig_iter = e.iter_extra
+
+        def iter_extra(v, p2):
+            from pyvc.types import VRef
+            if isinstance(v, VRef) and v.cls in ("GraphOutputs", "GraphInputs"):
+                return e.to_seq(e.read_field(p2, v, "data"), p2)
+            return orig_iter(v, p2)
+        e.iter_extra = iter_extra
+    # (well-formedness of the graphs that existed when the kernel was entered: callees may create objects)
+    wf = ["nonnull(graph_like)", "forall(lambda g=Graph: implies(old(allocated(g)), nonnull(g._outputs) and nonnull(g._outputs.data)))",
+          "forall(lambda g=Graph, h=Graph: implies(old(allocated(g)) and old(allocated(h)) and g is not h, g._outputs is not h._outputs and g._outputs.data is not h._outputs.data))",
+          "forall(lambda g=Graph, j=int: implies(old(allocated(g)) and 0 <= j and j < len(box(g._outputs.data)), nonnull(box(g._outputs.data)[j])))"]
+    pending = ("len(box(graph._outputs.data)) == len(it) and "
+               "forall(lambda j=int: implies(k <= j and j < len(it), box(graph._outputs.data)[j] is %s))")
+    eng.add_target(Target("_alias_multi_used_outputs", mod=OF, qual="_alias_multi_used_outputs", setup=setup,
+        params={"graph_like": TRef("Graph")}, requires=[w.replace("old(allocated(g)) and old(allocated(h)) and ", "").replace("implies(old(allocated(g)), ", "(").replace("old(allocated(g)) and ", "") for w in wf],
+        local_types={"seen": SETV},
+        loops={"for graph in (graph_like, *graph_like.subgraphs())": LoopSpec(invariant=wf[1:], modifies=None),
+               "for (i, output) in enumerate(graph.outputs)": LoopSpec(invariant=wf[1:] + ["nonnull(graph)", "old(allocated(graph))", pending % "it[j][1]"], modifies=None)},
+        ensures=[], raises_default=[], modifies=None, assert_mode="raise"))
+
+    # _alias_direct_outputs: the outputs to fix are collected first ((value, index) pairs), then replaced one by one: a collected
+    # pair still describes the container when its turn comes (only positions already handled have changed, pairs have distinct
+    # indices in increasing order)
+    PAIR = eng.LIST(TTup([V, INT]))
+    collected = ("forall(lambda m=int: implies(0 <= m and m < len(box(outputs_to_fix)), 0 <= box(outputs_to_fix)[m][1] and "
+                 "box(outputs_to_fix)[m][1] < len(box(graph._outputs.data)) and box(outputs_to_fix)[m][0] is box(graph._outputs.data)[box(outputs_to_fix)[m][1]])) and "
+                 "forall(lambda m=int, n=int: implies(0 <= m and m < n and n < len(box(outputs_to_fix)), box(outputs_to_fix)[m][1] < box(outputs_to_fix)[n][1]))")
+    eng.add_target(Target("_alias_direct_outputs", mod=OF, qual="_alias_direct_outputs", setup=setup,
+        params={"graph_like": TRef("Graph")}, requires=[w.replace("old(allocated(g)) and old(allocated(h)) and ", "").replace("implies(old(allocated(g)), ", "(").replace("old(allocated(g)) and ", "") for w in wf],
+        local_types={"outputs_to_fix": PAIR},
+        loops={"for graph in (graph_like, *graph_like.subgraphs())": LoopSpec(invariant=wf[1:], modifies=None),
+               "for (i, output) in enumerate(graph.outputs)": LoopSpec(
+                   invariant=wf[1:] + ["nonnull(graph)", "old(allocated(graph))", "nonnull(outputs_to_fix)",
+                                       "len(box(graph._outputs.data)) == len(it)",
+                                       "forall(lambda j=int: implies(0 <= j and j < len(it), box(graph._outputs.data)[j] is it[j][1]))",
+                                       collected,
+                                       "forall(lambda m=int: implies(0 <= m and m < len(box(outputs_to_fix)), box(outputs_to_fix)[m][1] < k))"],
+                   modifies=[PAIR.cls + ".$v"]),
+               "for (output, index) in outputs_to_fix": LoopSpec(
+                   invariant=wf[1:] + ["nonnull(graph)", "old(allocated(graph))",
+                                       "forall(lambda m=int: implies(k <= m and m < len(it), 0 <= it[m][1] and it[m][1] < len(box(graph._outputs.data)) and "
+                                       "it[m][0] is box(graph._outputs.data)[it[m][1]]))",
+                                       "forall(lambda m=int, n=int: implies(0 <= m and m < n and n < len(it), it[m][1] < it[n][1]))"],
+                   modifies=None)},
         ensures=[], raises_default=[], modifies=None, assert_mode="raise"))
